@@ -34,7 +34,10 @@ type Cluster struct {
 	ByHash     map[string]*WriteRec
 	CreateOpts func(i int) *orbitdb.CreateDBOptions
 	PeerOpts   []PeerOpt
-	wseq       []int
+	// GapFill: the first 1-3 remote fetches of about half the acknowledged entries fail, so
+	// that ancestors reach other replicas after their descendants, in batches of their own
+	GapFill bool
+	wseq    []int
 }
 
 type ClusterCfg struct {
@@ -142,6 +145,11 @@ func (c *Cluster) RecordWrite(i int, op *Op, e ipfslog.Entry, seen map[string]bo
 	r := &WriteRec{Name: EntryName(e), Node: i, Hash: e.GetHash().String(), Seen: seen, Clock: e.GetClock().GetTime(), OpID: op.ID, EffAt: op.EffAt}
 	c.Writes = append(c.Writes, r)
 	c.ByHash[r.Hash] = r
+	if c.GapFill && c.K.C.Chance(1, 2) {
+		c.K.W.mu.Lock()
+		c.K.W.FailWant[r.Hash] = c.K.C.Range(1, 3)
+		c.K.W.mu.Unlock()
+	}
 	return r
 }
 
@@ -194,6 +202,20 @@ func (c *Cluster) nameOf(h string) string {
 		return r.Name
 	}
 	return h
+}
+
+// FetchFailures switches on, per run, failing block fetches (1 run in 3: a kernel action that
+// fails a pending fetch; 1 run in 3: gap-fill mode). Failed fetches are retried by the
+// replicator on the next announcement.
+func (c *Cluster) FetchFailures() {
+	k := c.K
+	if k.C.Chance(1, 3) {
+		k.F.FailFetch = k.C.Range(1, 3)
+	}
+	if k.C.Chance(1, 3) {
+		c.GapFill = true
+		k.W.Stat("mode:gap-fill")
+	}
 }
 
 // AllIdle: true when every live replica's replicator reports no queued/fetching work
